@@ -7,7 +7,8 @@ detected by comparing values.  Every read position of the client has LOGS_PER_RE
 data batch, so that an ``on_log`` callback can raise at every read position:
 
   echo(token)            unary:   log, log, result
-  gen(token)             stream with header: (log, log, header) then per tick: log, log, data(token, i)
+  gen(token)             stream with header: (log, log, header) then per tick: log, log, data(token, i);
+                         on cancel: log, log, end of stream
 """
 from __future__ import annotations
 
@@ -39,6 +40,11 @@ class C32GenState(StreamState):
             out.client_log(Level.INFO, f"tick-log {self.token} {self.i} {k}")
         out.emit_pydict({"token": [self.token], "i": [self.i]})
         self.i += 1
+
+    def on_cancel(self, ctx: CallContext) -> None:
+        # the client meets these while cancel() discards the rest of the output stream
+        for k in range(LOGS_PER_READ):
+            ctx.client_log(Level.INFO, f"cancel-log {self.token} {k}")
 
 
 class C32Service(Protocol):
